@@ -332,6 +332,8 @@ def slice_vs(vs, voc=None, seen=None):
     Containers are walked in list order: shared objects must only be placed where that is the real slicing order."""
     k = vs[0]
     if k == "sh":
+        if vs[2][0] == "fs":
+            return slice_vs(vs[2], voc, seen)          # FrozenSetSlicer.trackReferences is False: always sent in full
         if seen is not None and vs[1] in seen:
             return ["wr", canon_vs(vs[2]), None]
         if seen is not None:
@@ -688,7 +690,15 @@ def IConstraint_of(c):
     return IConstraint(c)
 
 
-def call_trial(argnames, cons, pos_ws, kw_ws, numargs=None, prelude=None, vocab=0, direct=False, per_instance=False):
+def flat_items(pos_ws, kw_ws):
+    """(count, children) of the `arguments` sequence an honest sender emits for these positional / keyword wire trees"""
+    items = list(pos_ws)
+    for name, x in kw_ws:
+        items += [["ws", False, len(name.encode()), list(name.encode())], x]
+    return len(pos_ws), items
+
+
+def call_trial(argnames, cons, pos_ws, kw_ws, numargs=None, prelude=None, vocab=0, direct=False, per_instance=False, raw=None):
     """hand-built `call` for method m(argnames=cons): positional wire trees pos_ws, keyword wire trees kw_ws
     [(name, ws)..].  The caller side has a PendingRequest for reqID 1 so the Error/Answer coming back is observed.
     prelude: list of value specs sent first inside the arguments scope?  (not possible: see smuggle_trial)"""
@@ -701,6 +711,18 @@ def call_trial(argnames, cons, pos_ws, kw_ws, numargs=None, prelude=None, vocab=
 
     def body(enc):
         oc, _ = enc.open(b"arguments")
+        if raw is not None:
+            # raw = (count, children): count None = no count token, an int = INT token, a wire spec = that token / sequence;
+            # children: wire specs emitted one after the other, whatever the receiver takes them for
+            count, items = raw
+            if isinstance(count, int):
+                enc.tok(tokens.INT, count)
+            elif count is not None:
+                enc.wire(count, body.refs)
+            for i, x in enumerate(items):
+                body.refs[i] = enc.wire(x, body.refs)
+            enc.close(oc)
+            return
         enc.tok(tokens.INT, len(pos_ws) if numargs is None else numargs)
         for i, x in enumerate(pos_ws):
             body.refs[i] = enc.wire(x, body.refs)
@@ -1053,7 +1075,7 @@ def py_args_ok(argspec, args, kwargs):
 
 
 # ------------------------------------------------------------------ shared (identical) container objects in one call
-CONTAINER_KINDS = ["list", "tuple", "dict", "set-any", "set-mutable", "choice", "any", "opt"]
+CONTAINER_KINDS = ["list", "tuple", "dict", "set-any", "set-mutable", "set-frozen", "choice", "any", "opt"]
 
 
 def gen_container_cs(rng, kind):
@@ -1070,6 +1092,8 @@ def gen_container_cs(rng, kind):
         return ["set", hleaf(), rng.choice([None, 3]), None]
     if kind == "set-mutable":
         return ["set", hleaf(), rng.choice([None, 3]), True]
+    if kind == "set-frozen":
+        return ["set", hleaf(), rng.choice([None, 3]), rng.choice([False, None])]
     if kind == "choice":
         return ["choice", [gen_container_cs(rng, rng.choice(["list", "tuple", "dict", "set-any", "set-mutable"])), ["py", "int"]]]
     if kind == "any":
@@ -1079,26 +1103,33 @@ def gen_container_cs(rng, kind):
     raise ValueError(kind)
 
 
-def gen_refable_value(cs, rng):
-    """a conforming value of cs that is a list / tuple / dict / mutable set"""
+def gen_refable_value(cs, rng, frozen=False):
+    """a conforming value of cs that is a list / tuple / dict / mutable set (repeats travel as references) or, with
+    frozen, a frozenset (ONE object occurring twice is still sent twice in full)"""
     for _ in range(20):
         v = gen_value(cs, rng) if norm_cs(cs)[0] not in ("any",) else rng.choice(
-            [["l", [["i", 1], ["i", 2]]], ["T", [["i", 1]]], ["d", [[["i", 1], ["i", 2]]]], ["s", [["i", 1]]]])
-        if v[0] in ("l", "T", "d", "s") and not (v[0] == "T" and not v[1]):
+            [["l", [["i", 1], ["i", 2]]], ["T", [["i", 1]]], ["d", [[["i", 1], ["i", 2]]]], ["s", [["i", 1]]]] +
+            ([["fs", [["i", 1], ["i", 2]]], ["fs", []]] if frozen else []))
+        if v[0] in (("fs",) if frozen else ("l", "T", "d", "s")) and not (v[0] == "T" and not v[1]):
             return v
     return None
 
 
-def gen_shared_call(rng):
+SHARED_SHAPES = ["two-args", "arg-kwarg", "list-of", "tuple-of", "dict-then-arg", "three"]
+
+
+def gen_shared_call(rng, kind=None, shape=None):
     """-> (argspec, args_vs, kwargs_vs): ONE container object occurs twice in the call, the second occurrence in a slot
-    governed by a container constraint of every kind (so the OPEN reference meets that constraint's checkOpentype)"""
-    kind = rng.choice(CONTAINER_KINDS)
+    governed by a container constraint of every kind (so the OPEN reference meets that constraint's checkOpentype);
+    kind "set-frozen" / a frozenset under set-any / any: the object is a frozenset, which no sender reference-tracks"""
+    kind = kind or rng.choice(CONTAINER_KINDS)
     x = gen_container_cs(rng, kind)
-    v = gen_refable_value(x, rng)
+    frozen = kind == "set-frozen" or (kind in ("set-any", "any") and rng.random() < 0.4)
+    v = gen_refable_value(x, rng, frozen)
     if v is None:
         return None
     sh = ["sh", 1, v]
-    shape = rng.choice(["two-args", "arg-kwarg", "list-of", "tuple-of", "dict-then-arg", "three"])
+    shape = shape or rng.choice(SHARED_SHAPES)
     if shape == "two-args":
         return [("a", x, False), ("b", x, False)], [sh, sh], []
     if shape == "arg-kwarg":
